@@ -48,6 +48,7 @@ def gen_cases(rng, n):
                 elif r < 0.5:
                     events += [["close"], ["next"]]
         cases.append({"id": "q%d" % i, "bs": bs, "gen": gen, "events": events, "verbose": rng.choice([0, 0, 1, 60]),
+                      "relist": rng.random() < 0.4,
                       "how": rng.choice(["n_jobs1", "n_jobs1", "sequential", "threading1", "negative"])})
     # fixed shapes: sized empty input with progress messages; failure in the first task; input failing at its end
     for gen in (False, True):
